@@ -286,6 +286,7 @@ type c20Req struct {
 	Path    string
 	Headers []int // indices into the header menu
 	BodyLen int
+	Idx     int `json:",omitempty"` // ordinal in the job (selects body fill and the handler's reply variant); kept for the replay
 }
 
 // bodies with line breaks at the front, in the middle and at the end (negative "lengths"): the
@@ -916,7 +917,7 @@ func c20Run(job, tier string, deadline time.Time) *engine.Result {
 						return r
 					}
 					idx++
-					q := c20Req{parts[1], path, hs, bl}
+					q := c20Req{parts[1], path, hs, bl, idx}
 					if report(c.doHTTP(q, idx), map[string]interface{}{"http": []c20Req{q}}) {
 						return r
 					}
@@ -937,14 +938,18 @@ func c20Run(job, tier string, deadline time.Time) *engine.Result {
 		}
 		r.Sample(map[string]interface{}{"accept_timing": "server socket created {before, after} the request segment was processed x request sizes {1,100,1400}"})
 	case "http-seq":
-		reqs := []c20Req{{"GET", "/a", nil, 0}, {"POST", "/echo", []int{0}, 10}, {"PUT", "/nope", nil, 3}, {"HEAD", "/b/c", []int{1, 2}, 0}}
+		reqs := []c20Req{{"GET", "/a", nil, 0, 0}, {"POST", "/echo", []int{0}, 10, 0}, {"PUT", "/nope", nil, 3, 0}, {"HEAD", "/b/c", []int{1, 2}, 0, 0}}
 		idx := 1000
 		for a := range reqs {
 			for b := range reqs {
 				for d := range reqs {
-					for _, q := range []c20Req{reqs[a], reqs[b], reqs[d]} {
+					trio := []c20Req{reqs[a], reqs[b], reqs[d]}
+					for k := range trio {
+						trio[k].Idx = idx + 1 + k
+					}
+					for _, q := range trio {
 						idx++
-						if report(c.doHTTP(q, idx), map[string]interface{}{"http": []c20Req{reqs[a], reqs[b], reqs[d]}}) {
+						if report(c.doHTTP(q, idx), map[string]interface{}{"http": trio}) {
 							return r
 						}
 					}
@@ -1127,7 +1132,11 @@ func c20Replay(rp json.RawMessage) *engine.Violation {
 	defer func() { c.close() }()
 	var f *c20Fail
 	for i, q := range p.HTTP {
-		if f = c.doHTTP(q, 5000+i); f != nil {
+		ix := 5000 + i
+		if q.Idx != 0 {
+			ix = q.Idx
+		}
+		if f = c.doHTTP(q, ix); f != nil {
 			break
 		}
 	}
